@@ -119,7 +119,7 @@ def c_requester(count: int, ttl_ms: int, dt1_us: int, dt2_us: int, count2: int) 
         for i in range(NB):
             ref.issue(2 * tag + 1, loop.now_us())
             try:
-                _issue(c, kinds[tag], tag)
+                _issue(c, kinds[tag % len(kinds)], tag)
                 issued.append(tag)
             except Exception as e:  # asyncio.QueueFull when the bounded lease queue overflows
                 if type(e).__name__ != 'QueueFull':
@@ -146,7 +146,7 @@ def c_requester(count: int, ttl_ms: int, dt1_us: int, dt2_us: int, count2: int) 
             before = len(_requests(t))
             ref.issue(2 * tag + 1, loop.now_us())
             try:
-                _issue(c, kinds[tag], tag)
+                _issue(c, kinds[tag % len(kinds)], tag)
             except Exception as e:
                 if type(e).__name__ != 'QueueFull':
                     devs.append('request-raised:' + type(e).__name__)
